@@ -35,9 +35,10 @@ func (cc *CheckCtx) runMono(ms monoStage) {
 	key := ms.Pkg + "." + ms.Func
 	cc.Funcs[key] = true
 	if frA.Err != "" || frB.Err != "" {
-		cc.ToolErr = append(cc.ToolErr, key+": "+frA.Err+frB.Err)
+		cc.funcErr(ms.Pkg, ms.Func, frA.Err+frB.Err)
 		return
 	}
+	cc.noteWarn(frA)
 	for k := range frA.VC.Inlined {
 		cc.Inlined[k] = true
 	}
@@ -86,6 +87,9 @@ func (cc *CheckCtx) runMono(ms monoStage) {
 			// replay: both objects of the first failing pair on the real code
 			for _, in := range insts {
 				if in.Label == bad[0].Label {
+					if ci, ok := concretizeInst(&res, in); ok {
+						in = ci
+					}
 					cc.replayPair(frA, frB, in, &r)
 					break
 				}
@@ -221,7 +225,7 @@ func objectPairs(frA, frB *FuncRun, sc *stageCtx, metrics []string) []CaseInst {
 	return objectPairsF(frA, frB, sc, metrics, nil)
 }
 
-func objectPairsF(frA, frB *FuncRun, sc *stageCtx, metrics []string, keep func(codes map[string]int) bool) []CaseInst {
+func objectPairsF(frA, frB *FuncRun, sc *stageCtx, metrics []string, keep func(codes map[string]int) bool, fixed ...map[string]int) []CaseInst {
 	symsA, symsB := receiverSyms(frA), receiverSyms(frB)
 	var order []string
 	for _, f := range sc.rp.Fields {
@@ -232,8 +236,13 @@ func objectPairsF(frA, frB *FuncRun, sc *stageCtx, metrics []string, keep func(c
 		if keep != nil && !keep(codes) {
 			return
 		}
+		for _, fx := range fixed {
+			for k, v := range fx {
+				codes[k] = v
+			}
+		}
 		for _, st := range severitySteps(sc.spec, sc.rp, metrics, codes) {
-			sub := mergeSub(objSub(symsA, packObject(sc.rp, codes)), objSub(symsB, packObject(sc.rp, st.Codes)))
+			sub := mergeSub(objSubP(symsA, packObject(sc.rp, codes), knownMask(sc.rp, codes)), objSubP(symsB, packObject(sc.rp, st.Codes), knownMask(sc.rp, st.Codes)))
 			out = append(out, CaseInst{Sub: sub, Label: objLabel(sc.rp, codes, order) + "  ->  " + st.M + ":" + sc.rp.Field(st.M).Codes[st.Codes[st.M]]})
 		}
 	})
@@ -243,15 +252,26 @@ func objectPairsF(frA, frB *FuncRun, sc *stageCtx, metrics []string, keep func(c
 // cutPairs: monotonicity of the rounding stage h(k, t) = round(k/10 * weights(t)) in k and in the
 // metrics t, for a function whose first stage enters through a cut symbol (callee result or inner
 // rounding).
-func cutPairs(frA, frB *FuncRun, sc *stageCtx, tmetrics []string, cutA, cutB []*Term, specA, specB *Term, lo, hi int, negZero bool) []CaseInst {
+func cutPairs(frA, frB *FuncRun, sc *stageCtx, tmetrics []string, cutA, cutB []*Term, specA, specB *Term, lo, hi int, negZero bool, ground ...bool) []CaseInst {
 	symsA, symsB := receiverSyms(frA), receiverSyms(frB)
+	isGround := len(ground) > 0 && ground[0]
+	restZero := map[*Term]*Term{}
+	for _, s := range symsA {
+		restZero[restSym(s)] = BVLit(0, 8)
+	}
 	var order []string
 	for _, f := range sc.rp.Fields {
 		order = append(order, f.Metric)
 	}
 	var out []CaseInst
 	mk := func(codesA, codesB map[string]int, va, vb *Term, ka, kb int, label string) {
-		sub := mergeSub(objSub(symsA, packObject(sc.rp, codesA)), objSub(symsB, packObject(sc.rp, codesB)))
+		sub := mergeSub(objSubP(symsA, packObject(sc.rp, codesA), knownMask(sc.rp, codesA)), objSubP(symsB, packObject(sc.rp, codesB), knownMask(sc.rp, codesB)))
+		if isGround {
+			memo := map[*Term]*Term{}
+			for k, v := range sub {
+				sub[k] = Subst(v, restZero, memo)
+			}
+		}
 		for _, c := range cutA {
 			sub[c] = va
 		}
@@ -348,7 +368,7 @@ func monoStages(cc *CheckCtx) []monoStage {
 		Space: "inner Roundup value steps k -> k+1 (0..100) x E,RL,RC; temporal steps x all inner values",
 		Build: func(frA, frB *FuncRun, scA, scB *stageCtx) ([]CaseGoal, []CaseInst) {
 			ca, cb := callSyms(scA, "roundup", true), callSyms(scB, "roundup", true)
-			insts := cutPairs(frA, frB, scA, v3Temporal, ca, cb, specApp("envInner31K", frA), specApp("envInner31K", frB), 0, 100, false)
+			insts := cutPairs(frA, frB, scA, v3Temporal, ca, cb, specApp("envInner31K", frA), specApp("envInner31K", frB), 0, 100, false, true)
 			return []CaseGoal{leqGoal("31", "(CVSS31).EnvironmentalScore", "more_severe_not_lower", resultTerm(frA), resultTerm(frB))}, insts
 		}})
 	for _, variant := range []struct{ name, tier, space string }{
@@ -367,7 +387,7 @@ func monoStages(cc *CheckCtx) []monoStage {
 						return val("CR") == val("IR") && val("IR") == val("AR") && val("CR") != "X"
 					}
 				}
-				insts := objectPairsF(frA, frB, scA, metrics, keep)
+				insts := objectPairsF(frA, frB, scA, metrics, keep, fixedAt(scA.rp, append(append([]string{}, v3Modified...), v3Temporal...), "X"))
 				five := tenthOf(50)
 				inner := func(sc *stageCtx) *Term {
 					var t *Term
@@ -409,13 +429,18 @@ func init() {
 				cc.runMono(m)
 			}
 			c12v4(cc)
+			if cc.Tier != "thorough" {
+				cc.Exhaustive = false
+				cc.Notes = append(cc.Notes, "quick tier: exhaustive for v2.0, v3.0 and the v3.1 base/temporal/outer-environmental stages; the v3.1 inner environmental stage (7,776 of 165,888 classes) and the v4.0 abstract states (box corners of 52,650 states) are stated subsets, complete in the thorough tier")
+			}
 		},
 		Trusted: append(append([]string{}, trustedCommon...),
 			"T3 IEEE-754 binary64 evaluation by the solver's own floating-point implementation"),
 		Assumptions: []string{
 			"no oracle: the implementation's own terms are compared on every pair of classes that differ by one severity step of one metric",
 			"stage composition: a score that is round(stage value x weights) is monotone in the stage value (checked for every unit step k -> k+1 of the one-decimal stage value) and in each weight metric; the stage value itself is monotone on all classes; Modified/undefined metrics are covered through their effective values (C10)",
-			"scope as stated by the property: v2.0 and v3.0 base and temporal, v3.1 all three",
+			"scope as stated by the property: v2.0 and v3.0 base and temporal, v3.1 all three, v4.0 Score",
+			"v4.0: Score is a function of (MacroVector, four severity distances) on the main path (C04's cut obligations and macroVector's contract, re-discharged here); a one-step increase of one metric changes the state of one EQ group only (EQ3/EQ6 jointly), the realizable group transitions are enumerated by the solver from the specification functions; combining a realizable group transition with every state of the other groups over-approximates the neighbourhood graph",
 		},
 	}
 }
